@@ -89,7 +89,7 @@ func c11CheckMap(om *orderedmap.OrderedMap[uint8, uint8], m *c11Model, what stri
 	}
 }
 
-//verif:h prop=C11 p.ops=3/4 cover=set-new,set-old,delete-hit,delete-miss,clear,clone,stop,delete-in-foreach runs=2000000 timeout=200/900
+//verif:h prop=C11 p.ops=3/4 cover=set-new,set-old,delete-hit,delete-miss,clear,clone,stop,delete-in-foreach runs=2000000 timeout=900/900
 func H_C11_orderedmap() {
 	u := c11Universe()
 	om := orderedmap.New[uint8, uint8]()
@@ -235,7 +235,7 @@ func c11SameOrder(s ReadableSet[uint8], m *c11Set, what string) {
 	}
 }
 
-//verif:h prop=C11 p.ops=1/2 cover=add,addall,delete,deleteall,apply,compute,replace,algebra,self runs=3000000 timeout=250/900
+//verif:h prop=C11 p.ops=1/2 cover=add,addall,delete,deleteall,apply,compute,replace,algebra,self runs=3000000 timeout=900/900
 func H_C11_set() {
 	u := c11Universe()
 	s, m := c11Subset(u, "init")
@@ -364,7 +364,7 @@ func H_C11_set() {
 	}
 }
 
-//verif:h prop=C11 cover=threshold1,threshold2 runs=2000000 timeout=200/900 p.ops=2/3
+//verif:h prop=C11 cover=threshold1,threshold2 runs=2000000 timeout=900/900 p.ops=2/3
 func H_C11_arithmetic() {
 	u := c11Universe()
 	ar := NewSetArithmetic[uint8]()
@@ -432,7 +432,7 @@ func H_C11_arithmetic() {
 // H_C11_conc: every combination of two concurrent Set methods returns (no deadlock), Apply/Compute/Replace
 // are atomic with respect to each other, single-element operations are linearizable.
 //
-//verif:h prop=C11 preempt=2/3 cover=done runs=3000000 timeout=250/900 steps=300000
+//verif:h prop=C11 preempt=2/3 cover=done runs=3000000 timeout=900/900 steps=300000
 func H_C11_conc() {
 	s := NewSet[uint8](1, 2)
 	other := NewSet[uint8](2, 3)
